@@ -351,8 +351,11 @@ func (s *symCtx) assert(c *term, prop, label string) {
 	bad, m := s.slv.checkWithModel(s.tt.not(c), s.vars)
 	if bad {
 		s.addViolation(prop, label, m)
+		s.assume(c)
+		return
 	}
-	s.assume(c)
+	// c is implied by the path condition: recording it keeps the model valid
+	s.record(event{kind: evAssume, taken: true}, c)
 }
 
 func (s *symCtx) addViolation(prop, label string, m map[string]uint64) {
